@@ -21,7 +21,7 @@ namespace {
 struct Region {
     uintptr_t lo, hi;
 };
-Region g_reg[2];
+Region g_reg[4];  // simulated copy (data, bss) and reference copy (data, bss)
 bool g_armed = false, g_open = false;
 std::vector<TrapRec> g_traps;
 std::vector<std::pair<uintptr_t, std::string>> g_dataSyms;
@@ -53,10 +53,10 @@ bool segvHook(void *addr, void *) {
 void trapInit(const char *argv0) {
     staticsInit();
     if (!staticsAvailable()) {  // sanitizer builds: no fenced layout, trap disabled
-        g_reg[0] = g_reg[1] = Region{0, 0};
+        g_reg[0] = g_reg[1] = g_reg[2] = g_reg[3] = Region{0, 0};
         return;
     }
-    for (int i = 0; i < 2; i++) {
+    for (int i = 0; i < 4; i++) {
         g_reg[i].lo = staticRegions()[i].lo;
         g_reg[i].hi = staticRegions()[i].hi;
     }
@@ -105,6 +105,13 @@ void trapDisarm() {
     g_open = false;
     protect(PROT_READ | PROT_WRITE);
 }
+bool trapArmed() { return g_armed; }
+void trapWithPagesWritable(void (*f)()) {
+    bool wasProtected = g_armed && !g_open;
+    if (wasProtected) protect(PROT_READ | PROT_WRITE);
+    f();
+    if (wasProtected) protect(PROT_READ);
+}
 void trapRearm() {
     if (g_armed && g_open) {
         g_open = false;
@@ -116,7 +123,15 @@ std::vector<TrapRec> trapTake() {
     t.swap(g_traps);
     return t;
 }
+static std::string trapSymbolBare(uintptr_t addr);
 std::string trapSymbol(uintptr_t addr) {
+    std::string s = trapSymbolBare(addr);
+    for (int i = 2; i < 4; i++)
+        if (addr >= g_reg[i].lo && addr < g_reg[i].hi)
+            return s + " [default-configuration copy of the library (no H3_ALLOC_PREFIX)]";
+    return s;
+}
+static std::string trapSymbolBare(uintptr_t addr) {
     if (g_dataSyms.empty()) return "0x" + hex64(addr);
     auto it = std::upper_bound(g_dataSyms.begin(), g_dataSyms.end(),
                                std::make_pair(addr, std::string("\x7f")));
